@@ -268,7 +268,7 @@ claim(
     "child sequence is never indexed by an unclamped float-derived index (scalar and vectorised); __mul__ implements the "
     "scaling table derived from fill; a numeric datum never makes fill raise; no node writes into the weight/data arrays its "
     "siblings also use and child += other_child updates the child (shared rules of C03/C07); Bag keys are normalised so that equal data share "
-    "one key (shared rule of C02); a Count child of a collection sees the batch length and a Count handed a scalar weight and a known length grows by weight x rows (shared rules of C03). NOT decided: that floats adjacent to an edge land in the numerically right bin, and "
+    "one key (shared rule of C02); a Count child of a collection sees the batch length and a Count handed a scalar weight and a known length grows by weight x rows (shared rules of C03); the vectorised entry point hands only positive-or-zero weights to the tree (rows whose weight is not > 0 are skipped as in fill). NOT decided: that floats adjacent to an edge land in the numerically right bin, and "
     "sums up to rounding; invariants through + and += are the structural clauses of C01/C07.",
     "Same assumptions as C02/C03.",
     "DESIGN.md sections 2.4 and 3, C05",
